@@ -133,6 +133,12 @@ where
                 .context("Failed to write to temp file")?;
         }
     }
+    // The temp file is about to be read back through its path: wait for the last
+    // (background) write to be carried out, and learn about its result.
+    temp_file
+        .flush()
+        .await
+        .context("Failed to flush temp file")?;
     Ok((
         source_hasher.finalize().to_vec(),
         archive_chunks,
